@@ -6,7 +6,7 @@ set -e
 B=$(ls -d /root/.rustup/toolchains/nightly-x86_64-unknown-linux-gnu/lib/rustlib/*/bin)
 S=${1:-/tmp/adbcov}
 mkdir -p $S/build $S/prof
-(cd /verif/harness && RUSTFLAGS="-C instrument-coverage" CARGO_NET_OFFLINE=true cargo +nightly build --release --offline --target-dir $S/build >/dev/null 2>&1)
+(cd /verif/harness && LLVM_PROFILE_FILE=$S/prof/build-%p-%m.profraw RUSTFLAGS="-C instrument-coverage" CARGO_NET_OFFLINE=true cargo +nightly build --release --offline --target-dir $S/build >/dev/null 2>&1)
 python3 - "$S" <<'PY'
 import sys, subprocess, os
 sys.path.insert(0, '/verif/tools')
